@@ -189,7 +189,7 @@ func TestC02Phases(t *testing.T) {
 			cases = append(cases, &c02Case{Start: start, Pool: pool, Dups: 2})
 			for i := 0; i < 12; i++ {
 				for _, ap := range []bool{false, true} {
-					cases = append(cases, &c02Case{Start: start, Pool: pool, Dups: i % 2, Plan: &RoundPlan{Faults: []FaultSpec{{i, ap}}}})
+					cases = append(cases, &c02Case{Start: start, Pool: pool, Dups: i % 2, Plan: &RoundPlan{Faults: []FaultSpec{{Idx: i, Applied: ap, Kind: faultKinds[(i+len(cases))%len(faultKinds)]}}}})
 				}
 			}
 			for i := 0; i < 9; i++ {
@@ -199,7 +199,7 @@ func TestC02Phases(t *testing.T) {
 			}
 			for _, clk := range []string{"stall", "back", "plus1"} {
 				cases = append(cases, &c02Case{Start: start, Pool: pool, Dups: 1, Clock: clk})
-				cases = append(cases, &c02Case{Start: start, Pool: pool, Clock: clk, Plan: &RoundPlan{Faults: []FaultSpec{{2 + len(cases)%4, true}}}})
+				cases = append(cases, &c02Case{Start: start, Pool: pool, Clock: clk, Plan: &RoundPlan{Faults: []FaultSpec{{Idx: 2 + len(cases)%4, Applied: true}}}})
 			}
 			for i := 0; i < pick(3, 12); i++ {
 				cases = append(cases, &c02Case{Start: start, Pool: pool, Dups: 1, Next: &RoundPlan{Crash: &CrashSpec{Phase: "tiles", Mask: rng.U64()}}})
